@@ -2,6 +2,7 @@ package main
 
 import (
 	"fmt"
+	"go/token"
 	"strings"
 
 	"golang.org/x/tools/go/ssa"
@@ -240,5 +241,93 @@ func checkIDUnescaped(c *Ctx) {
 	}
 	if n == 0 {
 		r.Bad("C24.R3", fid, "returned bytes", p.Pos(fn.Pos()), "UNDECIDED: IDFirstElement returns no bytes")
+	}
+}
+
+// ---------------- C24.R4 (round 4 seed C24-F): SASLprep first, then the 127-byte cut ----------------
+
+func callsProcessInput(fn *ssa.Function) bool {
+	found := false
+	eachInstr(fn, func(_ *ssa.BasicBlock, _ int, i ssa.Instruction) {
+		if call, ok := i.(*ssa.Call); ok {
+			if f := staticCallee(call); f != nil && f.Name() == "processInput" {
+				found = true
+			}
+		}
+	})
+	return found
+}
+
+// checkPasswordCutAfterSASLprep: Algorithm 2.A: "convert the password to UTF-8 after SASLprep … truncate to 127
+// bytes". Normalisation changes lengths (NFKC composes and decomposes), so the order matters for every non-ASCII
+// password near the limit. For each validator, in it or in the one helper through which it reaches processInput:
+// every [:127] cut has an operand that derives from processInput's result, and processInput is not handed a value
+// that was cut.
+func checkPasswordCutAfterSASLprep(c *Ctx) {
+	p, r := c.P, c.R
+	for _, fid := range []string{"pkg/pdfcpu.validateUserPasswordAES256", "pkg/pdfcpu.validateOwnerPasswordAES256", "pkg/pdfcpu.validateUserPasswordAES256Rev6", "pkg/pdfcpu.validateOwnerPasswordAES256Rev6"} {
+		fn := p.Func(fid)
+		if fn == nil {
+			r.Bad("C24.R4", fid, "anchor", "", "UNRESOLVED-ANCHOR")
+			continue
+		}
+		scope := []*ssa.Function{fn}
+		eachInstr(fn, func(_ *ssa.BasicBlock, _ int, i ssa.Instruction) {
+			if call, ok := i.(*ssa.Call); ok {
+				if f := staticCallee(call); f != nil && f.Pkg == fn.Pkg && f.Name() != "processInput" && len(f.Blocks) > 0 && callsProcessInput(f) {
+					scope = append(scope, f)
+				}
+			}
+		})
+		var bad []string
+		cuts, norms := 0, 0
+		var pos token.Pos = fn.Pos()
+		for _, f := range scope {
+			eachInstr(f, func(_ *ssa.BasicBlock, _ int, i ssa.Instruction) {
+				switch x := i.(type) {
+				case *ssa.Slice:
+					if x.High == nil {
+						return
+					}
+					if k, ok := constInt(x.High); !ok || k != 127 {
+						return
+					}
+					cuts++
+					fromNorm := false
+					for _, l := range valueLeaves(x.X) {
+						if ex, ok := l.(*ssa.Extract); ok {
+							if call, ok := ex.Tuple.(*ssa.Call); ok {
+								if g := staticCallee(call); g != nil && (g.Name() == "processInput" || (g.Pkg == fn.Pkg && callsProcessInput(g))) {
+									fromNorm = true
+								}
+							}
+						}
+					}
+					if !fromNorm {
+						pos = x.Pos()
+						bad = append(bad, "the [:127] cut in "+f.Name()+" is applied to a value that is not the SASLprep result")
+					}
+				case *ssa.Call:
+					if g := staticCallee(x); g == nil || g.Name() != "processInput" || len(x.Call.Args) != 1 {
+						return
+					}
+					norms++
+					for _, l := range valueLeaves(x.Call.Args[0]) {
+						if sl, ok := l.(*ssa.Slice); ok && sl.High != nil {
+							pos = x.Pos()
+							bad = append(bad, "processInput in "+f.Name()+" is handed a value that was already cut")
+						}
+					}
+				}
+			})
+		}
+		switch {
+		case cuts == 0 || norms == 0:
+			r.Bad("C24.R4", fid, "SASLprep before the cut", p.Pos(fn.Pos()), fmt.Sprintf("UNDECIDED: %d cuts at 127 and %d SASLprep calls found in the validator and its preparation helper", cuts, norms))
+		case len(bad) > 0:
+			r.Bad("C24.R4", fid, "SASLprep before the cut", p.Pos(pos), strings.Join(bad, "; ")+": Algorithm 2.A normalises the password and truncates the UTF-8 result to 127 bytes — with the order reversed a long password with composed or compatibility characters hashes to another value than in every conforming implementation and the document's own correct password is rejected")
+		default:
+			r.OK("C24.R4", fid, "SASLprep before the cut", p.Pos(fn.Pos()), "the value cut at 127 is processInput's result; processInput receives the uncut password", true)
+		}
 	}
 }
